@@ -136,6 +136,8 @@ class CFG:
         self.succ: Dict[int, List[Tuple[int, str]]] = {}
         self.pred: Dict[int, List[int]] = {}
         self._noreturn = noreturn or (lambda c: False)
+        self._bdefs: Optional[Dict[str, ast.AST]] = None
+        self._expanding: Set[str] = set()
         self.entry = self._new("entry").idx
         self.exit = self._new("exit").idx
         self.raise_exit = self._new("raise").idx
@@ -195,9 +197,18 @@ class CFG:
                 if not cur:
                     break
             return (cur, other) if isinstance(e.op, ast.And) else (other, cur)
-        if isinstance(e, ast.UnaryOp) and isinstance(e.op, ast.Not) and isinstance(e.operand, (ast.BoolOp, ast.UnaryOp)):
+        if isinstance(e, ast.UnaryOp) and isinstance(e.op, ast.Not):
             t, f = self._cond(e.operand, frm, ctx, st)
             return f, t
+        if isinstance(e, ast.Name):
+            # a local that merely names a boolean combination (`found = a == b; deleted = ...; if found and not deleted`)
+            d = self._bool_defs().get(e.id)
+            if d is not None and e.id not in self._expanding:
+                self._expanding.add(e.id)
+                try:
+                    return self._cond(d, frm, ctx, st)
+                finally:
+                    self._expanding.discard(e.id)
         atom, neg = polarity(e)
         truth = const_truth(atom)
         if truth is not None:
@@ -209,6 +220,17 @@ class CFG:
         self._implicit_exc(n, ctx)
         t, f = [(n.idx, "T")], [(n.idx, "F")]
         return (f, t) if neg else (t, f)
+
+    def _bool_defs(self) -> Dict[str, ast.AST]:
+        if self._bdefs is None:
+            from .match import single_defs
+
+            self._bdefs = {}
+            if isinstance(self.func, (ast.FunctionDef, ast.AsyncFunctionDef)):
+                for k, v in single_defs(self.func).items():
+                    if isinstance(v, (ast.BoolOp, ast.Compare)) or (isinstance(v, ast.UnaryOp) and isinstance(v.op, ast.Not)):
+                        self._bdefs[k] = v
+        return self._bdefs
 
     def _stmt(self, st, frm, ctx) -> List[Tuple[int, str]]:
         if isinstance(st, ast.If):
